@@ -25,6 +25,7 @@ func init() {
 	workloadFeatures["whale-exit"] = featWhaleExit
 	workloadFeatures["c15"] = featC15
 	workloadFeatures["avg-unavailable"] = featAvgUnavailable
+	workloadFeatures["ungraded-snapshot"] = featUngradedSnapshot
 	workloadFeatures["bank-mixed-conversion"] = featBankMixedConversion
 	workloadFeatures["overflow-conversion"] = featOverflow
 	workloadFeatures["spr-impostor"] = featImpostor
@@ -138,6 +139,19 @@ func featC15(m *gen.Mixed, ts *gen.TieSetup, p *modelParams) {
 			}
 		})
 	}
+	// a quiet payout height: nobody writes to the OPR or SPR chain in that block (miner and staker
+	// outage); the developer reward is due by height alone. Even seeds: the first payout height from
+	// 2.0.2 on; odd seeds: the first one from the developer-reward activation on.
+	if !p.Literal && p.AlignV202 == 0 && !containsStr(p.Features, "align") {
+		from := e.V202
+		if p.Seed%2 == 1 {
+			from = e.V20Dev
+		}
+		q := ((from + 143) / 144) * 144
+		m.ForceEmpty[q] = true
+		m.ForceGraded[q-1] = true
+		m.ForceGraded[q+1] = true
+	}
 	// the whale keeps some pEUR and pXBT for the transfers above
 	h0 := e.TxConv + 4
 	m.ForceGraded[h0] = true
@@ -237,7 +251,13 @@ func featC03(m *gen.Mixed, ts *gen.TieSetup, p *modelParams) {
 					continue
 				}
 				var txs []forge.Tx
-				switch rng.Intn(11) {
+				switch rng.Intn(13) {
+				case 11: // outputs that add up to the input only modulo 2^64 (two of 2^63)
+					x := bal / 2
+					txs = []forge.Tx{{From: a, Asset: fat2.PTickerUSD, Amount: x, To: []forge.Out{{Addr: sink, Amount: 1 << 63}, {Addr: ks[rng.Intn(len(ks))].FA(), Amount: 1 << 63}, {Addr: sink, Amount: x}}}}
+				case 12: // the same with every single amount inside int64
+					x := bal / 2
+					txs = []forge.Tx{{From: a, Asset: fat2.PTickerUSD, Amount: x, To: []forge.Out{{Addr: sink, Amount: 1<<63 - 1}, {Addr: ks[rng.Intn(len(ks))].FA(), Amount: 1<<63 - 1}, {Addr: sink, Amount: x + 2}}}}
 				case 0: // exactly the balance in two steps
 					txs = []forge.Tx{forge.Transfer(a, fat2.PTickerUSD, bal-1, sink), forge.Transfer(a, fat2.PTickerUSD, 1, sink)}
 				case 1: // one unit too many over two steps
@@ -357,6 +377,25 @@ func featC13(m *gen.Mixed, ts *gen.TieSetup, p *modelParams) {
 		fat2.PTickerEUR, fat2.PTickerXBT, fat2.PTickerADA, fat2.PTickerAUD, fat2.PTickerNEO, fat2.PTickerHBAR, fat2.PTickerKES, fat2.PTickerETB}
 	acts := []uint32{e.PEGPricing, e.OneWaypFCT, e.ConversionLimit, e.V4, e.V20, e.V20Dev, e.V202, e.V204, e.PIP10}
 	ki := 0
+	// a conversion into PEG entered in the last block(s) before 2.0 is executed at a 2.0 height, where it
+	// is forbidden — also when the first 2.0 block has no rates and it is considered one block later
+	skip20 := p.Seed%2 == 1 && e.V20%144 != 0
+	for i, hh := range []uint32{e.V20 - 1, e.V20 - 1, e.V20} {
+		hh, k, i := hh, forge.NewKey(fmt.Sprintf("c13-peg20-%d-%d", p.Seed, i)), i
+		fundMany(m, ts.Whale, first+1, []forge.Key{k}, func(int) uint64 { return 500 * 1e8 })
+		m.Schedule(hh, func(v *gen.View, s *forge.BlockSpec) {
+			if v.Balances.Get(k.FA(), fat2.PTickerUSD) > 100e8 {
+				s.Tx = append(s.Tx, forge.SignedBatch([]forge.Tx{forge.Conversion(k.FA(), fat2.PTickerUSD, 10e8+uint64(i), fat2.PTickerPEG)}, m.W.EntryTime(hh)+int64(40+i), k))
+			}
+		})
+	}
+	defer func() {
+		if skip20 {
+			delete(m.ForceGraded, e.V20)
+			m.ForceUngraded[e.V20] = true
+			m.ForceGraded[e.V20+1] = true
+		}
+	}()
 	for _, a := range acts {
 		for d := -3; d <= 2; d++ {
 			h := uint32(int(a) + d)
@@ -390,6 +429,35 @@ func featC13(m *gen.Mixed, ts *gen.TieSetup, p *modelParams) {
 				}
 			})
 		}
+	}
+}
+
+// featUngradedSnapshot: the first snapshot height from 2.0.2 on has too few records of either kind
+// (no winners, no rates — the snapshot code looks older rates up for the payout there) while
+// conversions are waiting; they must stay pending until the next block with rates.
+func featUngradedSnapshot(m *gen.Mixed, ts *gen.TieSetup, p *modelParams) {
+	e := m.W.Eras
+	rng := rand.New(rand.NewSource(p.Seed ^ 0x5a9))
+	h := ((e.V202 + 143) / 144) * 144
+	ks := keys("ungsnap", p.Seed, 4)
+	fundMany(m, ts.Whale, e.TxConv+7, ks, func(i int) uint64 { return 1_000 * 1e8 })
+	delete(m.ForceGraded, h)
+	m.ForceUngraded[h] = true
+	m.ForceGraded[h+1] = true
+	if rng.Intn(2) == 0 {
+		m.ForceGraded[h-1] = true
+	} else {
+		delete(m.ForceGraded, h-1)
+		m.ForceUngraded[h-1] = true
+	}
+	for i, d := range []uint32{2, 1, 1, 0} {
+		hh, k, i := h-d, ks[i], i
+		m.Schedule(hh, func(v *gen.View, s *forge.BlockSpec) {
+			dst := []fat2.PTicker{fat2.PTickerEUR, fat2.PTickerXBT, fat2.PTickerJPY, fat2.PTickerXAU}[i]
+			if v.Balances.Get(k.FA(), fat2.PTickerUSD) > 10e8 {
+				s.Tx = append(s.Tx, forge.SignedBatch([]forge.Tx{forge.Conversion(k.FA(), fat2.PTickerUSD, 5e8+uint64(i), dst)}, m.W.EntryTime(hh)+int64(70+i), k))
+			}
+		})
 	}
 }
 
@@ -574,7 +642,40 @@ func featC11(m *gen.Mixed, ts *gen.TieSetup, p *modelParams) {
 		m.Schedule(h, func(v *gen.View, s *forge.BlockSpec) {
 			w := m.W
 			ver := e.OPRVersion(h)
-			switch rng.Intn(9) {
+			switch rng.Intn(10) {
+			case 8: // staking records whose staker id is not a 32-byte address: a holder's address with a
+				// trailing byte, cut short by one byte, or empty — signed by that holder, valid otherwise.
+				// Half the time the properly named records are cut to one short of the winner count, so
+				// that counting the odd ones turns a block without staking winners into a paying one.
+				if h >= e.V20 && len(s.SPR) >= 25 && !(h%144 == 0) && !m.ForceGraded[h] {
+					var holders []forge.Key
+					for _, a := range gen.TopPEG(v.Balances, 100) {
+						for _, k := range m.Actors {
+							if k.FA() == a && !k.IsEth() {
+								holders = append(holders, k)
+							}
+						}
+					}
+					if len(holders) >= 3 {
+						if rng.Intn(2) == 0 {
+							s.SPR = s.SPR[:24]
+						}
+						for i, k := range holders[len(holders)-3:] {
+							a := k.FA()
+							id := append(append([]byte{}, a[:]...), 0x01)
+							switch i {
+							case 1:
+								id = append([]byte{}, a[:31]...)
+							case 2:
+								id = []byte{}
+							}
+							std := forge.MakeSPR(forge.SPRParams{Version: e.SPRVersion(h), Height: h, Staker: a, Signer: k, Payout: k.FA().String(), Assets: forge.PriceVector(5, w.Prices)})
+							ext := std.ExtIDs()
+							ext[1] = id
+							s.SPR = append(s.SPR, forge.MakeSPR(forge.SPRParams{Version: e.SPRVersion(h), Height: h, Staker: a, Signer: k, Payout: k.FA().String(), Assets: forge.PriceVector(5, w.Prices), RawExtIDs: ext}))
+						}
+					}
+				}
 			case 0: // exactly the winner count
 				if len(s.OPR) > forge.WinnerCount(ver) {
 					s.OPR = s.OPR[:forge.WinnerCount(ver)]
